@@ -232,7 +232,7 @@ const ODD_NAMES: [&str; 12] = ["a b", "-n", "x*", "é", "a.b", "q'q", "~t", "#h"
 const ALIAS_NAMES: [&str; 9] = ["al1", "al2", "b*c", "-x", "a.b", "é1", "x y", "q'q", "!z"];
 const FUNC_NAMES: [&str; 8] = ["f1", "f2", "a.b", "-f", "x*", "é", "f 3", "q\"q"];
 const OPTIONS: [&str; 11] = ["allexport", "noclobber", "noglob", "hashondefinition", "ignoreeof", "nolog", "notify", "pipefail", "nounset", "vi", "posixlycorrect"];
-const CONDS: [&str; 6] = ["EXIT", "INT", "USR1", "TERM", "HUP", "QUIT"];
+const CONDS: [&str; 11] = ["EXIT", "INT", "USR1", "TERM", "HUP", "QUIT", "RTMIN", "RTMIN+2", "RTMAX", "RTMAX-1", "RTMAX-3"];
 
 /// (listing command, output file, how the listing is turned into the script of the fresh shell)
 const PRINTERS: [(&str, &str); 11] = [
